@@ -90,11 +90,26 @@ func runScript(env *tcpEnv, sc tscript, bucketMs int, limit time.Duration) strin
 			mu.Unlock()
 		}
 	}()
+	// chunks are sent at absolute times (no accumulating drift); what lateness remains under load is
+	// measured and taken out of the observed cut time, because the server's deadline runs from the
+	// moment the bytes really arrived
+	planned := time.Duration(0)
+	late := time.Duration(0)
 	for _, ch := range sc.chunks {
-		time.Sleep(time.Duration(ch.delayMs) * time.Millisecond)
+		planned += time.Duration(ch.delayMs) * time.Millisecond
+		if d := time.Until(start.Add(planned)); d > 0 {
+			time.Sleep(d)
+		}
+		mu.Lock()
+		over := cutAt >= 0
+		mu.Unlock()
+		if over {
+			break
+		}
 		if _, err := c.Write(ch.data); err != nil {
 			break
 		}
+		late = time.Since(start) - planned
 	}
 	select {
 	case <-done:
@@ -105,7 +120,7 @@ func runScript(env *tcpEnv, sc tscript, bucketMs int, limit time.Duration) strin
 	if cutAt < 0 {
 		return fmt.Sprintf("resp=%d cut=never", got/33)
 	}
-	ms := int(cutAt / time.Millisecond)
+	ms := int((cutAt - late) / time.Millisecond)
 	return fmt.Sprintf("resp=%d cut=%d", got/33, (ms+bucketMs/2)/bucketMs)
 }
 
